@@ -109,6 +109,9 @@ impl RedirectionLoop {
     //@| before `if let Ok(url) = Url::parse(&current_url) {`: proof { assert(hops_distinct(hops@)); assert(hops_distinct(hops@.drop_last())); }
 }
 
+// ---- PINS: functions of /repo this unit (or the property it serves) only ASSUMES something about — a hand-written shim stands for them, or nothing at
+// all does. The assumption was made for one text of each; the token hash ties it to that text: a change makes the unit UNDECIDED (exit 2), never OK.
+//@@ pin src/api/redirection_loop.rs :: fn join_url = bc6518227918
 //@@ strlits
 } // verus!
 fn main() {}
